@@ -204,6 +204,8 @@ func RunOnce(sc *Scenario, prefix []int, trace bool) (*Exec, *vrt.Result) {
 	return runOnce(sc, prefix, trace, nil)
 }
 
+var capacityNoted = map[string]bool{}
+
 func runOnce(sc *Scenario, prefix []int, trace bool, visit func(uint64) bool) (*Exec, *vrt.Result) {
 	x := &Exec{prefix: prefix, visit: visit}
 	if vrt.RaceMode {
@@ -219,8 +221,15 @@ func runOnce(sc *Scenario, prefix []int, trace bool, visit func(uint64) bool) (*
 		sc.Body(x)
 	})
 	if r.Internal != "" {
-		fmt.Fprintf(os.Stderr, "INTERNAL: %s in scenario %s %s (prefix %v): a limit of the model, not a violation\n", r.Internal, sc.Name, sc.Params, prefix)
-		os.Exit(3)
+		// a fixed capacity of the model (threads, timers, waiters per condition or channel) was exceeded:
+		// typically runaway behaviour of the tree under test. The execution is not judged and the
+		// scenario is reported as not exhaustive; it is neither a violation nor a reason to stop.
+		if !capacityNoted[sc.Name] {
+			capacityNoted[sc.Name] = true
+			fmt.Fprintf(os.Stderr, "NOTE: %s in scenario %s %s (prefix %v): a limit of the model, not a violation; the execution is not judged\n", r.Internal, sc.Name, sc.Params, prefix)
+		}
+		r.Capped = true
+		return x, r
 	}
 	if r.Panic != "" {
 		x.Fail("panic", "panic in thread: %s", r.Panic)
